@@ -9,7 +9,7 @@ from framelint.canon import (canon_function, show, S, to_poly, mk_lt, mk_and, mk
                              mk_call, atoms_of)
 from framelint.peval import paths
 from framelint.cfg import EXIT, ENTRY
-from .common import GEOM, MODULE, NETLIST, sigma_xy, sigma_dual, call_name, norm_stmt, is_eps_atom
+from .common import resolve_local, GEOM, MODULE, NETLIST, sigma_xy, sigma_dual, call_name, norm_stmt, is_eps_atom
 
 LOC = ("a", ("g", "Rectangle"), "StogLocation")
 from framelint.canon import canon_function as _canon_function_expanded
@@ -350,7 +350,7 @@ def r7(ctx: Ctx) -> None:
     # the variable that records the accepted trunk: assigned under the all(...) test
     best = None
     for n in ast.walk(lp):
-        if isinstance(n, ast.If) and any(isinstance(c, ast.Call) and call_name(c) == "all" for c in ast.walk(n.test)):
+        if isinstance(n, ast.If) and any(isinstance(c, ast.Call) and call_name(c) == "all" for c in ast.walk(resolve_local(fi.node, n.test))):
             for st in n.body:
                 if isinstance(st, ast.Assign) and isinstance(st.targets[0], ast.Name):
                     best = st.targets[0].id
